@@ -1140,6 +1140,17 @@ impl<'a> GeneratorState<'a> {
                         let ret = self.asm(STA, &ExprType::Absolute(name.clone(), true, 0), pos, false);
                         self.protected = false;
                         ret?;
+                        // The flags may have been said to describe the cell just written
+                        match &self.flags {
+                            FlagsState::Absolute(n, _, _)
+                            | FlagsState::AbsoluteX(n)
+                            | FlagsState::AbsoluteY(n)
+                                if n == name =>
+                            {
+                                self.flags = FlagsState::Unknown
+                            }
+                            _ => (),
+                        }
                         Ok(())
                     }
                     _ => Err(self
